@@ -37,8 +37,9 @@ CLAIM = dict(
           "injection, C02), same line groups, same token count; C01_holds - holds_C01 is true of the model's output; "
           "C01_glue_free_symbols - a sweep over the symbol set x 256 bytes on the regenerated table, lifted to every right "
           "context; C01_string_reencode - TokString.code of any byte string is read back to the same bytes; "
-          "C01_minify_total. The theorems are relative to lexer_agrees (picotool's tokens have the class and code of the "
-          "reference tokens = property C07). Full statement proved after the fix: commit for S1 (token gluing). Tie: pinned "
+          "C01_minify_total; C01_end_to_end / C01_holds_all - composed with the lexer worker's lex_agrees_code (C07): for every "
+          "byte string, lexer model then writer model, holds_C01 is true of the output - no hypothesis about the lexer left "
+          "(single chunk). Full statement proved after the fix: commit for S1 (token gluing). Tie: pinned "
           "sources, correspondence of lexer model + writer model with the real writer on the adjacency enumerator (all "
           "ordered pairs of token representatives incl. every symbol of the regenerated table), generated programs x "
           "layouts x configurations, `p8tool luamin` and `build --lua-minify`; the extracted holds_C01 (reference tokenizer "
